@@ -33,12 +33,12 @@ SEG_TEMPLATES = ["cafe\u0301", "Ã©", "a", "a.b", "v1+", "a(b)", "[a]", "{N}", 
                  "{N}-{M:int}", "p{N:int}s", "{N:str}.json", "{N:decimal}x", "id-{N:uuid}", "{N:date}T", "a|b", "a$", "^a", "a*"]
 VALID = {
     "str": ["alice;v=2", ";semi", "x", "a.b", "é", "12", "a b", "x\ny", "%41", " ", "e\u0301", "\u1100\u1161", "caf\u00e9",
-            "Ã©", "cafÃ©", "â\x82¬", "Â"],  # text whose characters, read as Latin-1 bytes, would form UTF-8: it is text already, nothing is to be decoded again
+            "Ã©", "cafÃ©", "â\x82¬", "Â", "a\x00b", "\x00", "\x7f\x1b"],  # text whose characters, read as Latin-1 bytes, would form UTF-8: it is text already, nothing is to be decoded again
     "int": ["0", "12", "007", "1" * 40, "1" * 400],
     "decimal": ["0", "100", "1.5", "10.50", "0.0", "000", "1.000", "100.0", "12345678901234567890.123"],
     "uuid": [U, "00000000-0000-0000-0000-000000000000"],
     "date": ["2021-03-07", "0001-01-01", "9999-12-31", "2024-02-29"],
-    "any": ["", "x", "a/b/c", "a\nb", "/", "\n"],
+    "any": ["", "x", "a/b/c", "a\nb", "/", "\n", "nul\x00/in/it"],
 }
 NEAR = {
     "str": ["", "a/b"],
@@ -54,7 +54,7 @@ PSEGS = ["Ã©", "cafÃ©", "alice;v=2", ";x", "a;", "cafe\u0301", "caf\u00e9", 
 
 def make_table(rng):
     routes = []
-    pfx = rng.choice(["p", "p", "p", "_p", "_", "item_"])  # placeholder names are the application's choice (a leading underscore included)
+    pfx = rng.choice(["p", "p", "p", "_p", "_", "item_", "größe", "日付"])  # placeholder names are the application's choice (a leading underscore included)
     own_names = rng.random() < 0.4  # every route names its placeholders differently: what one route binds must not show up in another's parameters
     for ri in range(rng.randrange(1, 5)):
         depth = rng.choice([1, 1, 2, 2, 3])
@@ -331,6 +331,60 @@ def lazy_routers(routes):
     return {"wsgi": wsgi.Router(*[(r, wsgi_endpoint(i)) for i, r in enumerate(routes)]), "asgi": asgi.Router(*[(r, asgi_endpoint(i)) for i, r in enumerate(routes)])}
 
 
+def through_middleware(ctx, routes, path, outer):
+    """the router sits behind a middleware whose handler looks at request.path_params before passing the request on (also below an
+    outer router that has bound parameters of its own); the endpoints are request_response views: what a view sees in
+    request.path_params is what the INNER router matched"""
+    from baize import asgi, wsgi
+    case = {"routes": routes, "path": path, "through_middleware": True, "below_outer_router": outer}
+    for iface, ns in (("wsgi", wsgi), ("asgi", asgi)):
+        seen = {}
+
+        def endpoint(i, ns=ns, iface=iface):
+            if iface == "wsgi":
+                @ns.request_response
+                def view(request):
+                    seen["hit"] = (i, dict(request.path_params))
+                    return ns.PlainTextResponse("ok")
+            else:
+                @ns.request_response
+                async def view(request):
+                    seen["hit"] = (i, dict(request.path_params))
+                    return ns.PlainTextResponse("ok")
+            return view
+        try:
+            router = ns.Router(*[(r, endpoint(i)) for i, r in enumerate(routes)])
+        except Exception:
+            return
+        if iface == "wsgi":
+            @ns.middleware
+            def m(request, next_call):
+                seen["before"] = dict(request.path_params)  # e.g. an access log, an auth check keyed on a parameter
+                return next_call(request)
+        else:
+            @ns.middleware
+            async def m(request, next_call):
+                seen["before"] = dict(request.path_params)
+                return await next_call(request)
+        app = m(router)
+        req = drivers.Req(path=path.encode("utf-8"))
+        if iface == "wsgi":
+            env = drivers.to_environ(req)
+            if outer:
+                env["PATH_PARAMS"] = {"tenant": "acme"}
+            res = drivers.run_wsgi(app, env)
+            status, exc = res.code, res.exc
+        else:
+            scope = drivers.to_scope(req)
+            if outer:
+                scope["path_params"] = {"tenant": "acme"}
+            res = drivers.run_asgi(app, scope)
+            status, exc = res.status, res.exc
+        ctx.mon("router-behind-middleware")
+        hit = (seen["hit"][0], seen["hit"][1], seen["hit"][1]) if "hit" in seen else None
+        judge(ctx, iface, routes, path, hit, status, exc, dict(case, iface=iface))
+
+
 def in_flight(ctx, routes, paths, routers=None, pre=None):
     from vf import inflight
     routers = routers or lazy_routers(routes)
@@ -400,6 +454,12 @@ def run(ctx):
             first.setdefault(path, obs)
             judge(ctx, "wsgi" if rep % 2 == 0 else "asgi", routes, seen, hit, status, exc, {"routes": routes, "path": path, "long_lived_router": True})
         ctx.case(("long-lived", rep, ctx.shard))
+    # ---- the router behind a middleware that reads the parameters first; endpoints are request_response views
+    for i in range(ctx.scale(300, 20_000)):
+        routes = make_table(rng)
+        for path in paths_for(rng, routes, 3):
+            through_middleware(ctx, routes, path, outer=bool(i % 2))
+            ctx.case(("behind-middleware", tuple(routes), path, i % 2))
     # ---- several requests in flight on one router, endpoints that read their parameters late (vf/inflight.py)
     routes = ["/u/{name}", "/n/{id:int}", "/f/{p:any}", "/d/{day:date}/{slot:int}", "/{a}/{b}", "/static"]
     routers = lazy_routers(routes)
@@ -433,6 +493,10 @@ def run(ctx):
 
 
 def replay(ctx, case):
+    if case.get("through_middleware"):
+        through_middleware(ctx, case["routes"], case["path"], case.get("below_outer_router", False))
+        ctx.case(1)
+        return
     if "in_flight_paths" in case:
         if case.get("preempted"):
             from vf import inflight
